@@ -73,7 +73,21 @@ Clauses(s, e) ==
                    Cl("AtomicOnRaise", AtomicOnRaise(a, b))})
 
 (* ======================================================================== *)
-(* Edit class.  Facts: token rows  <<type, ln, col, eln, ecol, kw, depth>>   *)
+(* Edit class =  <RootKind>:<call>@<self>/in:<I>/at:<A>/tok:<T>/fx:<F>/sk:<S>  *)
+(*   I  where the rectangle lies w.r.t. the statement spans of the text before: *)
+(*      none | simple.<Kind> | header.<Kind> (before the first child statement  *)
+(*      of a block statement) | body.<Kind>; the innermost containing statement *)
+(*   A  whole | start | end | mid  (rectangle vs. that statement's span)        *)
+(*   T  b (both ends on token boundaries) | in | str | cmt (inside a token)     *)
+(*   F  comma-terminated flags read off the texts: same ins del blank nl indent *)
+(*      blankln tws semiafter hash semi bslash kw cross inline elifchain        *)
+(*   S  effect on the statement skeleton (statement spans of the text after):   *)
+(*      invalid (no parse) | top (no enclosing statement) | local (exactly one  *)
+(*      statement at the same depth stands where the enclosing one stood and    *)
+(*      nothing else moved) | split | gone | nonlocal                           *)
+(* The statement-local reparser of fst_raw.py is, by construction, only right   *)
+(* for S = local; I/A/F separate the ways in which it goes wrong otherwise.     *)
+(* Facts: token rows  <<type, ln, col, eln, ecol, kw, depth>>   *)
 (*                     stmt rows   <<kind, ln, col, eln, ecol, blk, bln, bcol, depth>> (pre-order) *)
 Facts(id) == IF id \in 1..Len(FTab) THEN FTab[id] ELSE [toks |-> <<>>, stmts |-> <<>>]
 Toks(s)   == Facts(s.text).toks
